@@ -21,9 +21,11 @@ import (
 	"fmt"
 	"hash/fnv"
 	"os"
+	"runtime"
 	"sort"
 	"strings"
 	"sync"
+	"time"
 
 	corelog "tunnox-core/internal/core/log"
 	"tunnox-core/verifharness/fw"
@@ -64,19 +66,65 @@ type behaviour struct {
 
 var scopeAll = os.Getenv("VERIF_C15_SCOPE") == "all"
 
+// Gate-scheduled driving is a strict hand-over between the driver goroutine and one process
+// goroutine at a time, and every gate identifies its goroutine through runtime.Stack, which takes
+// a runtime-global lock: measured, 16 concurrent Drive calls on 16 Ps are 3x SLOWER than on one P
+// (futex storms). So the driver runs on one P (concurrent Drive calls still overlap their waits:
+// watchdogs, the 30 s heartbeats of the timed allocator behaviours) and switches to 8 Ps only while
+// free-running stress behaviours are active - those want real parallelism.
+var (
+	procMu     sync.Mutex
+	freeActive int
+)
+
+func enterFree() func() {
+	procMu.Lock()
+	freeActive++
+	if freeActive == 1 {
+		runtime.GOMAXPROCS(8)
+	}
+	procMu.Unlock()
+	return func() {
+		procMu.Lock()
+		freeActive--
+		if freeActive == 0 {
+			runtime.GOMAXPROCS(1)
+		}
+		procMu.Unlock()
+	}
+}
+
+var (
+	timeMu  sync.Mutex
+	timeBy  = map[string]time.Duration{}
+	countBy = map[string]int{}
+)
+
 func drive(env *fw.Env, fb fw.Behaviour) *fw.Trace {
 	var b behaviour
 	if err := json.Unmarshal(fb.Data, &b); err != nil {
 		return &fw.Trace{Status: fw.DriverError, Note: err.Error()}
 	}
+	if os.Getenv("VERIF_DEBUG") != "" {
+		t0 := time.Now()
+		defer func() {
+			k := b.Kind + ":" + b.Store + ":" + b.Lay
+			timeMu.Lock()
+			timeBy[k] += time.Since(t0)
+			countBy[k]++
+			timeMu.Unlock()
+		}()
+	}
 	switch b.Kind {
 	case "gen":
 		return driveGen(env, &b)
 	case "genfree":
+		defer enterFree()()
 		return driveGenFree(env, &b)
 	case "node":
 		return driveNode(env, &b)
 	case "nodefree":
+		defer enterFree()()
 		return driveNodeFree(env, &b)
 	}
 	return &fw.Trace{Status: fw.DriverError, Note: "unknown behaviour kind " + b.Kind}
@@ -347,6 +395,16 @@ func maxBehSrc(env *fw.Env, src string) int {
 func evStr(e fw.Event, k string) string { s, _ := e[k].(string); return s }
 
 func postDrive(env *fw.Env, traces []*fw.Trace) error {
+	if os.Getenv("VERIF_DEBUG") != "" {
+		var ks []string
+		for k := range timeBy {
+			ks = append(ks, k)
+		}
+		sort.Strings(ks)
+		for _, k := range ks {
+			fmt.Printf("[c15] drive time %-28s n=%-6d total=%v\n", k, countBy[k], timeBy[k].Round(time.Millisecond))
+		}
+	}
 	followed, diverged := 0, 0
 	oosTraces, oosDup := 0, 0
 	divBySrc := map[string]int{}
@@ -506,6 +564,7 @@ func selfTest(env *fw.Env, acc []*fw.Trace) []*fw.Trace {
 func main() {
 	corelog.SetDefault(corelog.NewNopLogger())
 	installReader()
+	runtime.GOMAXPROCS(1)
 	fw.Main(&fw.Property{
 		ID:          "C15",
 		DesignRef:   "DESIGN.md §5 C15",
